@@ -60,9 +60,18 @@ def load(data, ignore=None):
         d = collada.Collada(io.BytesIO(data), ignore=ignore)
         return 'ok', d
     except DaeError as e:
-        return type(e).__name__, None
+        # the documented kind: the nearest class of the documented hierarchy (a private subclass counts as its base)
+        return kname(e), None
     except Exception as e:
         return 'raw:' + type(e).__name__, None
+
+
+def kname(e):
+    """the documented kind of an error object: the nearest class of the documented hierarchy (a private subclass counts as its base)"""
+    for k in type(e).__mro__:
+        if k.__name__ in CLASSES + ['DaeError', 'DaeSaveValidationError']:
+            return k.__name__
+    return type(e).__name__
 
 
 def cls(name):
@@ -186,7 +195,7 @@ def check_fault(data, site, base):
             if mask_name == 'base':
                 return ('not-ignorable:%s:%s' % (kind, out), 'fault %s: %s escapes although DaeError is ignored' % (describe(data, site), out)), info
             continue     # a second, different error class may follow the first one: only the base mask must complete
-        recorded = [type(e).__name__ for e in d.errors]
+        recorded = [kname(e) for e in d.errors]
         if strict not in recorded:
             return ('not-recorded:%s' % kind, 'fault %s: %s was ignored but not recorded in errors (%s)' % (describe(data, site), strict, recorded)), info
         info['errors'] = recorded
@@ -287,8 +296,8 @@ def graph_masks(seed):
         out, d = load(data, ignore=mask)
         if out != 'ok':
             return ('graph:not-ignorable:' + out.split(':')[0], '%s: with %s ignored the load ends with %s' % (what, name, out))
-        if strict != 'ok' and 'DaeBrokenRefError' not in [type(e).__name__ for e in d.errors]:
-            return ('graph:not-recorded', '%s: strict load raises DaeBrokenRefError but the masked load records %s' % (what, [type(e).__name__ for e in d.errors]))
+        if strict != 'ok' and 'DaeBrokenRefError' not in [kname(e) for e in d.errors]:
+            return ('graph:not-recorded', '%s: strict load raises DaeBrokenRefError but the masked load records %s' % (what, [kname(e) for e in d.errors]))
     out, _ = load(data, ignore=[cls('DaeMalformedError')])
     if out != strict:
         return ('graph:unrelated-mask', '%s: strict outcome %s, with the unrelated DaeMalformedError ignored %s' % (what, strict, out))
@@ -419,7 +428,7 @@ def run(ctx):
                 for mask in ([], [info['strict']], ['DaeError'], [c for c in CLASSES if c != info['strict']][:1]):
                     out, d = load(bad, ignore=[cls(m) for m in mask])
                     lines.append('mask %s ; %s' % (' '.join(mask), ' '.join(errs)))
-                    wants.append(('ok errors=' + ','.join(type(e).__name__ for e in d.errors)) if out == 'ok' else 'raise:' + out)
+                    wants.append(('ok errors=' + ','.join(kname(e) for e in d.errors)) if out == 'ok' else 'raise:' + out)
         # pairs of faults
         for _ in range(6 if not ctx.thorough else 40):
             s1, s2 = ctx.rng.sample(ss, 2)
